@@ -7,7 +7,7 @@ PROP = "C56"
 LEAN_MODULES = ["LunaVerif.Props.C56", "LunaVerif.Props.C56Stream", "LunaVerif.Props.C56Spi",
                 "LunaVerif.Lemmas.C56StreamAny", "LunaVerif.Props.C56Uart", "LunaVerif.Props.C56Cdc",
                 "LunaVerif.Props.C56SpiBits", "LunaVerif.Lemmas.C56UartRank", "LunaVerif.Props.C56UartLive",
-                "LunaVerif.Props.C56UartMulti"]
+                "LunaVerif.Props.C56UartMulti", "LunaVerif.Props.C56SpiProgress", "LunaVerif.Props.C56StreamLive"]
 DRIVER = "Driver/C56.lean"
 REQUIRED_THEOREMS = ["captures_depth_consecutive_samples", "readback_nth", "trigger_during_capture_ignored",
                      "pretrigger_delay", "stream_readout_exact", "stream_readout_complete",
@@ -16,7 +16,9 @@ REQUIRED_THEOREMS = ["captures_depth_consecutive_samples", "readback_nth", "trig
                      "queue_conservation", "cdc_readout_in_order", "cdc_readout_complete", "spi_readout_bits",
                      "rank_tstep", "live_step", "rank_zero_iff", "uart_readout_duration", "uart_readout_within",
                      "uart_readout_total", "uart_readout_total_decoded", "uart_readout_returns_idle",
-                     "uart_multi_capture", "uart_multi_capture_decoded", "idle_prefix"]
+                     "uart_multi_capture", "uart_multi_capture_decoded", "idle_prefix", "track_words",
+                     "spi_readout_progress", "spi_readout_covers", "sending_within", "stream_readout_total",
+                     "cdc_readout_counted", "cdc_readout_fair"]
 RULE = ("cases = (sample_depth in {1,2,5,32,100} (+3,4,7,8,16,33 thorough), samples_pretrigger 0..3, domain sync/usb, "
         "three captured signals of 1+8+5 bits) x pattern: triggers sparse / held high / bursts / random incl. during "
         "capture; inputs random every cycle or a counter; captured_sample_number sweeps and random reads, also while "
@@ -59,6 +61,13 @@ ASSUMPTIONS = ["sample_depth >= 1", "captured_sample_number < sample_depth (addr
                "(noRetrigger), and the continuation after the hand-over cycle has at least "
                "10*divisor*bytes_per_sample*depth + 3 cycles (exactly readoutCycles = that - data_valid are needed: "
                "proved as an iff by a ranking function that decreases by one per cycle)",
+               "stream_readout_total: as stream_readout_any, and the consumer offers at least 2*depth - data_valid ready "
+               "cycles after the hand-over cycle (at any times); spi_readout_progress / spi_readout_covers: the hypotheses "
+               "of spi_readout_bits; the only pace-setting quantity is the number of sampling edges of sck the controller "
+               "has produced inside the chip-select window (counted on the pin from the level sck had in the last cycle "
+               "before the window); cdc_readout_counted: FIFO empty at the start, Legal, and the consumer has received "
+               "depth words; cdc_readout_fair: FIFO empty at the start, Legal, w_rdy high in at least 2*depth - "
+               "data_valid capture-domain cycles after the hand-over cycle",
                "cdc_readout_in_order (StreamILA with o_domain != domain): Amaranth's AsyncFIFOBuffered behaves as an "
                "in-order queue (w_rdy / r_rdy arbitrary, r_rdy only when a word is in the queue: Legal) - library code, "
                "not proved, validated on every simulated two-clock trace; any interleaving of the two clocks' edges; "
@@ -67,23 +76,30 @@ ASSUMPTIONS = ["sample_depth >= 1", "captured_sample_number < sample_depth (addr
 PARTIAL = ("the IntegratedLogicAnalyzer core and all three read-out wrappers are modelled, co-simulated and proved: StreamILA "
            "(same clock domain), SyncSerialILA down to the sdo pin (spi_readout_bits), AsyncSerialILA down to the tx "
            "waveform (uart_readout_exact / _complete / _decoded), StreamILA with o_domain != domain down to the output-domain "
-           "stream (cdc_readout_in_order / _complete). The duration of the UART read-out is proved exactly "
-           "(uart_readout_duration: wrapper idle and transmitter quiescent again iff at least "
-           "10*divisor*bytes_per_sample*depth + 3 - data_valid cycles have passed since the hand-over cycle, for all "
-           "depths / widths / divisors, by a ranking function), so uart_readout_total / _total_decoded need no "
-           "assumption on the end of the history. What remains: (1) the clock-domain crossing is proved "
-           "over an abstract in-order-queue model of Amaranth's AsyncFIFOBuffered (any clock interleaving, any w_rdy / "
-           "r_rdy behaviour within the queue contract); that the library FIFO's Gray-code implementation meets that "
-           "contract for all histories, and that it eventually delivers (liveness), is validated on the simulated "
-           "two-clock traces only; (2) the CDC theorems consider one capture per history (no new trigger accepted "
-           "after the hand-over cycle); consecutive captures compose through stream_readout_returns_idle, but a "
-           "whole-history multi-capture statement is written out for the UART wrapper only (uart_multi_capture / "
-           "_decoded: any number of captures, each followed by at least one read-out time "
-           "10*divisor*bytes_per_sample*depth + 3 before the next trigger is accepted; a trigger that arrives "
-           "earlier, while the transmitter is still busy with the previous buffer, is covered by the general start state of "
-           "uart_readout_exact only); (3) no "
-           "duration bound is stated for the SyncSerialILA read-out (its pace is the SPI controller's: the theorems "
-           "hold for every sck / cs activity)")
+           "stream (cdc_readout_in_order / _complete). Duration / completeness: the UART read-out takes exactly "
+           "10*divisor*bytes_per_sample*depth + 3 - data_valid cycles after the hand-over cycle (uart_readout_duration, an "
+           "iff, all depths / widths / divisors, by a ranking function that decreases by one per cycle), so "
+           "uart_readout_total / _total_decoded / uart_multi_capture need no assumption on the end of the history; the "
+           "StreamILA read-out is complete once the consumer has offered 2*depth - data_valid ready cycles "
+           "(stream_readout_total); the SyncSerialILA read-out has completed floor(E / bits_per_word) words after E "
+           "sampling edges of the controller's sck (spi_readout_progress). What remains: (1) the clock-domain crossing is "
+           "proved over an abstract in-order-queue model of Amaranth's AsyncFIFOBuffered (library code). Assumed of "
+           "the library FIFO, for every interleaving of the two clocks: (F1) the sequence of words read (r_en & r_rdy at a "
+           "read-clock edge, r_data of that cycle) is at every moment a prefix of the sequence of words written (w_en & "
+           "w_rdy at a write-clock edge, w_data of that cycle): nothing lost, duplicated, reordered or altered; (F2) "
+           "r_rdy is high only while a written word is still unread, and r_data then shows the oldest unread word "
+           "(Legal; no assumption on depth, on when w_rdy / r_rdy rise or fall, or on synchronizer delays); (F3, "
+           "liveness, needed only to discharge the hypotheses 'the consumer has received depth words' of "
+           "cdc_readout_counted / 'w_rdy was high 2*depth - data_valid times' of cdc_readout_fair) with both clocks "
+           "running, w_rdy rises again after a bounded number of edges whenever fewer than depth words are queued, and "
+           "a written word raises r_rdy after a bounded number of read-clock edges; (F4) neither domain is reset during "
+           "operation. F1 / F2 are checked on every simulated two-clock trace of the real gateware (the model's ok "
+           "output and the word comparison), F3 by the monitor's end-of-trace completeness check; none of them is proved "
+           "for the Gray-code implementation; (2) the CDC and SPI theorems consider one capture per history (no new "
+           "trigger accepted after the hand-over cycle); a whole-history multi-capture statement is written out for the "
+           "UART wrapper only (uart_multi_capture / _decoded: any number of captures, each followed by at least one "
+           "read-out time before the next trigger is accepted; a trigger that arrives earlier, while the transmitter "
+           "is still busy with the previous buffer, is covered by the general start state of uart_readout_exact only)")
 
 WIDTHS = [1, 8, 5]
 TOTAL = sum(WIDTHS)
